@@ -80,7 +80,8 @@ def payload_cols(n):
             ["x", "f8", [xa[i % 5] for i in range(n)]],
             ["s", "str", [sa[(i + 1) % 5] for i in range(n)]],
             ["b", "b1", [i % 3 != 1 for i in range(n)]],
-            ["g", "i8", [9007199254740993 + 2 * ((i * 3) % 5) for i in range(n)]]]
+            ["g", "i8", [9007199254740993 + 2 * ((i * 3) % 5) for i in range(n)]],
+            ["_u", "i8", [7 * i + 1 for i in range(n)]]]   # a column whose name starts with an underscore
 
 
 def group_rows(keycells, n):
@@ -226,10 +227,12 @@ def check_keys(out, by, groups):
 
 def run_op(d, op, by, n, groups, cells, rec):
     if op == "aggregate-core":
-        out = d.group_by(*by).aggregate(n=di.count(), dg=digest_fn, m=lambda x: x.nrow)
+        out = d.group_by(*by).aggregate(n=di.count(), dg=digest_fn, m=lambda x: x.nrow, u=lambda x: int(x._u[0]) - 7 * int(x.id[0]))
         rec.state(V.frame_key(out))
-        if list(out.keys()) != list(by) + ["n", "dg", "m"]:
+        if list(out.keys()) != list(by) + ["n", "dg", "m", "u"]:
             return f"columns {list(out.keys())}"
+        if any(v != 1 for v in V.cells(out["u"])):
+            return f"a group-wise function reading the column '_u' by attribute got {V.cells(out['u'])} (expected 1 for every group)"
         msg = check_keys(out, by, groups)
         if msg:
             return msg
